@@ -1,6 +1,6 @@
 """C10 - a merchant appears in a view exactly when the view's filter is true of it.
 
-Exhaustive: every views file made of 1..K views over a 32-filter alphabet (documented primitives, aggregates,
+Exhaustive: every views file made of 1..K views over a 33-filter alphabet (documented primitives, aggregates,
 by(month|year|week|day), period(), max_val, a global variable, a view-local variable shadowing a global, an
 unevaluable filter, `true`) x every set of 1..3 merchants over 15 payment histories (single payment, same
 month different days, same day, equal months, varied months, refund, same month number in two years, income /
@@ -20,7 +20,7 @@ from mc.ref import money
 
 PROPERTY = "C10"
 LEVEL = "exploration"
-RULE = ("cases = every sequence of 1..K distinct views (K=2 quick; thorough: K=2 over all 32 filters plus K=3 over a 10-filter sub-alphabet) x every set of 1..2 merchants plus the triples over the first seven histories (quick) / every set of 1..3 (thorough) "
+RULE = ("cases = every sequence of 1..K distinct views (K=2 quick; thorough: K=2 over all 33 filters plus K=3 over a 10-filter sub-alphabet) x every set of 1..2 merchants plus the triples over the first seven histories (quick) / every set of 1..3 (thorough) "
         "over 15 payment histories; each case runs the real analyse/classify chain once and judges every (view, merchant) pair. "
         "non-trivial = (view, merchant) pairs whose filter is evaluable and that are members of some but not all views of the file; cases distinct by construction")
 ASSUMPTIONS = ["payments / total / months / cv / by() are recomputed from the raw transactions with their real dates; cv is the population coefficient of variation of monthly totals",
@@ -62,6 +62,8 @@ FILTERS = [  # (name, local variable lines, filter)
     ("PeakDay", [], 'max(sum(by("day"))) > 100'),
     # spread of the payments (thresholds far from any borderline value); period() read through a view-local variable
     ("Stable", [], "count(payments) >= 2 and stddev(payments) < 1"), ("Spread", [], "stddev(payments) > 50"),
+    # the same filter text and the same view-local variable NAME as LocalShadow, bound to another value: each view reads its own
+    ("LocalShadow2", ["thresh = 150"], "total > thresh"),
     ("LocalPeriod", ['p = period("month")'], "months >= p"), ("LocalHalf", ['half = period("month") * 0.5'], "months > half"),
 ]
 SUB10 = [0, 2, 4, 7, 13, 14, 17, 19, 20, 21]
